@@ -220,7 +220,7 @@ func runC11() {
 			}
 		}
 		// (b) every stored value and dereferenced document the unmutated run touched
-		if *tier == "quick" && r.chance(1, 2) {
+		if *tier == "quick" && r.chance(1, 2) && sc0.Method != "GET" {
 			continue
 		}
 		ref := runWatched(sc0)
@@ -231,6 +231,11 @@ func runC11() {
 					if _, has := sc0.World.Store[id]; has {
 						touched[id] = "store"
 					}
+					for name, m := range map[string]map[string]jmap{"inboxes": sc0.World.Inboxes, "outboxes": sc0.World.Outboxes, "followers": sc0.World.Followers, "following": sc0.World.Following, "liked": sc0.World.Liked} {
+						if _, has := m[id]; has {
+							touched[id+" "+name] = name
+						}
+					}
 				}
 			}
 			if e.Kind == "deref" {
@@ -239,6 +244,17 @@ func runC11() {
 				}
 			}
 		}
+		if sc0.Entry == "getinbox" || sc0.Entry == "getoutbox" { // the page the application serves (an application call, not a Database one)
+			id := "https://" + host + sc0.Path
+			name, pages := "inboxes", sc0.World.Inboxes
+			if sc0.Entry == "getoutbox" {
+				name, pages = "outboxes", sc0.World.Outboxes
+			}
+			if _, has := pages[id]; !has {
+				pages[id] = jmap{"@context": asCtx, "type": "OrderedCollectionPage", "id": id}
+			}
+			touched[id+" "+name] = name
+		}
 		ids := make([]string, 0, len(touched))
 		for id := range touched {
 			ids = append(ids, id)
@@ -246,15 +262,69 @@ func runC11() {
 		sort.Strings(ids)
 		for _, id := range ids {
 			var doc jmap
-			if touched[id] == "store" {
+			coll := func(w *world, name string) map[string]jmap {
+				switch name {
+				case "inboxes":
+					return w.Inboxes
+				case "outboxes":
+					return w.Outboxes
+				case "followers":
+					return w.Followers
+				case "following":
+					return w.Following
+				case "liked":
+					return w.Liked
+				}
+				return nil
+			}
+			kindOf := touched[id]
+			key := id
+			if i := strings.Index(id, " "); i >= 0 {
+				key = id[:i]
+			}
+			if kindOf == "store" {
 				doc = sc0.World.Store[id]
-			} else {
+			} else if kindOf == "remote" {
 				doc = sc0.World.Remote[id].Doc
+			} else {
+				doc = coll(sc0.World, kindOf)[key]
 			}
 			var paths [][]interface{}
 			jsonPaths(map[string]interface{}(doc), nil, &paths)
+			if kindOf != "store" && kindOf != "remote" { // a collection page: its items replaced by, and mixed with, every hostile value
+				for _, member := range []string{"orderedItems", "items"} {
+					for _, rv := range repl {
+						for _, mixed := range []bool{false, true} {
+							m := deepCopy(doc)
+							if mixed {
+								m[member] = []interface{}{"https://remote.example/activities/1", rv, "https://remote.example/activities/1"}
+							} else {
+								m[member] = rv
+							}
+							sc := *sc0
+							w := copyWorld(sc0.World)
+							coll(w, kindOf)[key] = m
+							sc.World = w
+							res := runWatched(&sc)
+							results[res.Result]++
+							where[kindOf]++
+							s.Evaluations++
+							if res.Result == "panic" || res.Result == "hang" {
+								report(res.Result, &sc, res, map[string]interface{}{"where": kindOf, "id": key, "member": member, "replacement": rv, "document": m})
+							}
+						}
+					}
+				}
+			}
 			for _, p := range paths {
-				for _, op := range []int{0, 1 + r.intn(len(repl)), 1 + r.intn(len(repl))} {
+				ops := []int{0, 1 + r.intn(len(repl)), 1 + r.intn(len(repl))}
+				if kindOf != "store" && kindOf != "remote" && len(p) <= 2 { // the members and items of a served / updated collection: every replacement
+					ops = ops[:1]
+					for o := 1; o <= len(repl); o++ {
+						ops = append(ops, o)
+					}
+				}
+				for _, op := range ops {
 					var rv interface{}
 					if op > 0 {
 						rv = repl[op-1]
@@ -265,10 +335,12 @@ func runC11() {
 					}
 					sc := *sc0
 					w := copyWorld(sc0.World)
-					if touched[id] == "store" {
+					if kindOf == "store" {
 						w.Store[id] = m
-					} else {
+					} else if kindOf == "remote" {
 						w.Remote[id] = remoteDoc{Kind: "doc", Doc: m}
+					} else {
+						coll(w, kindOf)[key] = m
 					}
 					sc.World = w
 					res := runWatched(&sc)
@@ -351,6 +423,43 @@ func runC11() {
 			}
 			b, _ := json.Marshal(mutateAt(doc, p, op, rv))
 			decode(ty.Name, b)
+		}
+	}
+	// lexical near-misses of every literal kind, on every property of a type that is a plain literal holder
+	near := []interface{}{"P1W", "PT1.5S", "PT5Sx", "P1Y2", "PT", "P", "P-1D", "+P1D", "P1DT", "P1.5D", "PT1H1.5M", "P1Y2M3DT4H5M6.789S", "-P", "PP1D", "P1D1D", "P1S", "PT1Y", "P 1D", "p1d", "P1d",
+		"P99999999999999999999D", "PT99999999999999999999S", "-PT", "P1Y-2M", "P1YT2H3", "PT1M1M", "P0", "PT.5S", "P1,5D",
+		"2020-02-30T00:00:00Z", "2020-02-03T04:05:06", "2020-02-03 04:05:06Z", "2020-02-03T24:00:00Z", "2020-02-03T04:05:06.123Z", "2020-02-03T04:05:06+24:00", "T04:05:06Z",
+		"2020-13-01T00:00:00Z", "2020-02-03T04:05:60Z", "20200203T040506Z", "2020-02-03T04:05Z", "2020-02-03T04:05:06z", "0000-00-00T00:00:00Z", "2020-02-03T04:05:06+0530", "99999-01-01T00:00:00Z", "-2020-02-03T04:05:06Z",
+		float64(-1), float64(1.5), float64(1e300), "1", "-0", float64(1 << 62), "NaN", "Infinity",
+		"x-", "-en", "en--US", "a/b/c", "text/", "/html", "text/html; charset", "",
+		"http://", "https://[::1", "://x", "http://a b", "urn:", "mailto:", "%zz", "http://%41:80/",
+		map[string]interface{}{"en": 5}, map[string]interface{}{"": ""}, map[string]interface{}{"en": nil}, map[string]interface{}{"en": map[string]interface{}{"x": "y"}}}
+	for _, ty := range t.Types {
+		if ty.Typeless {
+			continue
+		}
+		for _, f := range ty.Fields {
+			pn := propJSONName(f.GoName)
+			if pn == "" || pn == "id" || pn == "type" {
+				continue
+			}
+			if ty.Name != "Note" && ty.Name != "Place" && ty.Name != "Question" && ty.Name != "Link" && ty.Name != "OrderedCollectionPage" && ty.Name != "Ticket" && ty.Name != "Emoji" && ty.Name != "PublicKey" && ty.Name != "Tombstone" && ty.Name != "Profile" && ty.Name != "Relationship" && ty.Name != "Commit" {
+				continue
+			}
+			for _, nv := range near {
+				for _, wrap := range []int{0, 1} {
+					var v interface{} = nv
+					if wrap == 1 {
+						v = []interface{}{nv, nv}
+					}
+					b, _ := json.Marshal(map[string]interface{}{"@context": allContexts, "type": ty.Name, "id": "https://example.com/d", pn: v})
+					decode(ty.Name+"."+pn, b)
+					if _, isMap := nv.(map[string]interface{}); isMap {
+						b, _ = json.Marshal(map[string]interface{}{"@context": allContexts, "type": ty.Name, "id": "https://example.com/d", pn + "Map": v})
+						decode(ty.Name+"."+pn+"Map", b)
+					}
+				}
+			}
 		}
 	}
 	for i := 0; i < 200; i++ {
